@@ -9,7 +9,7 @@ MODE = {"C08": "convert", "C09": "fail", "C10": "refuse"}
 
 def absorb(ctx, report, label):
     ctx.evaluations += report.get("evaluations", 0)
-    ctx.distinct += report.get("distinct_nontrivial", 0)
+    ctx.add_distinct("cases", label, report.get("distinct_nontrivial", 0))
     ctx.merge_counters(report.get("counters", {}), label + ".")
     for s in report.get("samples", []):
         if len(ctx.samples) < 8:
